@@ -64,7 +64,7 @@ func (p *Parser) parseFrom(parser *Parser) (Node, error) {
 				token := parser.tokens[parser.tokenIndex]
 
 				// Stop at block end
-				if token.Type == TOKEN_BLOCK_END || token.Type == TOKEN_BLOCK_END_TRIM {
+				if isBlockEndToken(token.Type) || token.Type == TOKEN_BLOCK_END_TRIM {
 					parser.tokenIndex++
 					break
 				}
@@ -164,7 +164,7 @@ func (p *Parser) parseFrom(parser *Parser) (Node, error) {
 
 			// Skip to the block end token
 			for parser.tokenIndex < len(parser.tokens) {
-				if parser.tokens[parser.tokenIndex].Type == TOKEN_BLOCK_END ||
+				if isBlockEndToken(parser.tokens[parser.tokenIndex].Type) ||
 					parser.tokens[parser.tokenIndex].Type == TOKEN_BLOCK_END_TRIM {
 					parser.tokenIndex++
 					break
